@@ -60,6 +60,8 @@ func goExpr(v tlaval.Value) string {
 func goStmt(v tlaval.Value, ind string) string {
 	r := tlaval.AsRec(v)
 	switch tlaval.Str(r["k"]) {
+	case "decl":
+		return ind + "var reg_" + tlaval.Str(r["v"]) + " uint" + strconv.Itoa(goRsize) + "\n"
 	case "set":
 		return ind + "reg_" + tlaval.Str(r["v"]) + " = " + goExpr(r["e"]) + "\n"
 	case "inc":
@@ -74,7 +76,10 @@ func goStmt(v tlaval.Value, ind string) string {
 	return ind + "// ?\n"
 }
 
+var goRsize = 8
+
 func goProgram(prog tlaval.Value, rsize int) string {
+	goRsize = rsize
 	typ := "uint" + strconv.Itoa(rsize)
 	var sb strings.Builder
 	sb.WriteString("package main\n\nimport (\n\t\"bondgo\"\n)\n\nfunc main() {\n")
@@ -83,9 +88,6 @@ func goProgram(prog tlaval.Value, rsize int) string {
 		sb.WriteString("\tvar reg_" + v + " " + typ + "\n")
 	}
 	sb.WriteString("\to0 = bondgo.Make(bondgo.Output, 1)\n\to1 = bondgo.Make(bondgo.Output, 2)\n")
-	for _, v := range []string{"a", "b", "c"} {
-		sb.WriteString("\treg_" + v + " = 0\n")
-	}
 	for _, s := range tlaval.AsSeq(prog) {
 		sb.WriteString(goStmt(s, "\t"))
 	}
@@ -233,10 +235,10 @@ func runC12(r *evid.Run) {
 		withIf bool
 	}
 	var progs []gprog
-	gen := func(rsize int, withIf bool, n, depth int, seed int64) bool {
-		dir := filepath.Join(scratch, fmt.Sprintf("gs_%d_%v", rsize, withIf))
+	gen := func(rsize int, withIf, noAssign bool, n, depth int, seed int64) bool {
+		dir := filepath.Join(scratch, fmt.Sprintf("gs_%d_%v_%v", rsize, withIf, noAssign))
 		os.MkdirAll(dir, 0o755)
-		cfg := fmt.Sprintf("SPECIFICATION Spec\nCONSTANTS\n RSize = %d\n MaxLen = %d\n WithIf = %s\nINVARIANT TypeOK\nCHECK_DEADLOCK FALSE\n", rsize, depth, strings.ToUpper(fmt.Sprint(withIf)))
+		cfg := fmt.Sprintf("SPECIFICATION Spec\nCONSTANTS\n RSize = %d\n MaxLen = %d\n WithIf = %s\n NoAssign = %s\nINVARIANT TypeOK\nCHECK_DEADLOCK FALSE\n", rsize, depth, strings.ToUpper(fmt.Sprint(withIf)), strings.ToUpper(fmt.Sprint(noAssign)))
 		_, err := tlc.Run(tlc.Options{SpecDir: specDir, Module: "GoSubset", CfgText: cfg, Workers: 1, Timeout: 15 * time.Minute,
 			Args: []string{"-simulate", fmt.Sprintf("file=%s/b,num=%d", dir, n), "-depth", strconv.Itoa(depth + 1), "-seed", strconv.FormatInt(seed, 10)}})
 		if err != nil {
@@ -263,7 +265,8 @@ func runC12(r *evid.Run) {
 		os.RemoveAll(dir)
 		return true
 	}
-	if !gen(8, false, r.Pick(40, 400), 8, r.Seed*11+1) || !gen(16, false, r.Pick(15, 200), 8, r.Seed*11+2) || !gen(8, true, r.Pick(25, 150), 5, r.Seed*11+3) {
+	if !gen(8, false, false, r.Pick(40, 400), 8, r.Seed*11+1) || !gen(16, false, false, r.Pick(15, 200), 8, r.Seed*11+2) ||
+		!gen(8, false, true, r.Pick(15, 120), 6, r.Seed*11+4) || !gen(8, true, false, r.Pick(25, 150), 5, r.Seed*11+3) {
 		return
 	}
 	states += int64(len(progs))
